@@ -21,6 +21,34 @@ pub struct Case {
     #[serde(default)]
     pub pre: Vec<Upd>,
     pub ops: Vec<Upd>,
+    /// 0: the plain labels (`a<k>` / 3k+2); n > 0: unusual labels — Strings that are prefixes or
+    /// suffixes of one another, differ in case only, are empty or very long; usize labels 0, powers
+    /// of two and their neighbours, usize::MAX
+    #[serde(default)]
+    pub label_scheme: u64,
+}
+
+const ODD_STRINGS: [&str; 16] = ["", "a", "A", "ab", "aB", "abc", "b", "bc", " ", "a b", "é", "a\n", "0", "00", "arg(a).", "_"];
+const ODD_USIZES: [usize; 16] = [0, 1, 2, 63, 64, 65, 255, 256, 65_535, 65_536, u32::MAX as usize, u32::MAX as usize + 1, usize::MAX, usize::MAX - 1, usize::MAX / 2, 1 << 40];
+
+fn odd_string(scheme: u64, l: L) -> String {
+    if scheme == 0 || (l as usize) >= ODD_STRINGS.len() {
+        return string_label(l);
+    }
+    let s = ODD_STRINGS[(l as usize + scheme as usize) % ODD_STRINGS.len()];
+    if scheme % 10 == 0 && !s.is_empty() {
+        s.repeat(5000) // very long labels with long common prefixes
+    } else {
+        s.to_string()
+    }
+}
+
+fn odd_usize(scheme: u64, l: L) -> usize {
+    if scheme == 0 || (l as usize) >= ODD_USIZES.len() {
+        // keep clear of the pool: 3k+2 could collide with 2, 65, 255 … only below 16 labels, which the pool covers
+        return usize_label(l) + 1_000_000;
+    }
+    ODD_USIZES[(l as usize + scheme as usize) % ODD_USIZES.len()]
 }
 
 pub struct C12;
@@ -295,15 +323,26 @@ impl Property for C12 {
             }
         }
         let ops = gen_ops(&mut rng, universe, n_ops, &mut store, invalid_pct);
-        serde_json::to_value(Case { string_labels: rng.bool(), init, pre, ops }).unwrap()
+        // a quarter of the initial label lists repeat a label (only the first occurrence counts)
+        if !init.is_empty() && rng.chance(1, 4) {
+            for _ in 0..rng.range(1, 3) {
+                let d = init[rng.below(init.len())];
+                let at = rng.below(init.len() + 1);
+                init.insert(at, d);
+            }
+        }
+        let label_scheme = if rng.chance(1, 4) { 1 + rng.below(40) as u64 } else { 0 };
+        serde_json::to_value(Case { string_labels: rng.bool(), init, pre, ops, label_scheme }).unwrap()
     }
     fn exec(&self, case: &Value) -> RunResult {
         let case: Case = serde_json::from_value(case.clone()).expect("C12 case");
         let mut r = RunResult::default();
-        if case.string_labels {
-            exec_t(&case, &string_label, &mut r);
-        } else {
-            exec_t(&case, &usize_label, &mut r);
+        let scheme = case.label_scheme;
+        match (case.string_labels, scheme) {
+            (true, 0) => exec_t(&case, &string_label, &mut r),
+            (false, 0) => exec_t(&case, &usize_label, &mut r),
+            (true, _) => exec_t(&case, &|l| odd_string(scheme, l), &mut r),
+            (false, _) => exec_t(&case, &|l| odd_usize(scheme, l), &mut r),
         }
         r.count("ops", case.ops.len() as u64);
         let changed = *r.counters.get("ops_changed").unwrap_or(&0);
@@ -327,6 +366,9 @@ impl Property for C12 {
     fn shrink(&self, case: &Value) -> Vec<Value> {
         let case: Case = serde_json::from_value(case.clone()).unwrap();
         let mut out = vec![];
+        if case.label_scheme != 0 {
+            out.push(Case { label_scheme: 0, ..case.clone() });
+        }
         if case.string_labels {
             out.push(Case { string_labels: false, ..case.clone() });
         }
@@ -352,7 +394,7 @@ impl Property for C12 {
         out.into_iter().map(|c| serde_json::to_value(c).unwrap()).collect()
     }
     fn rule(&self) -> String {
-        "case = initial label list (ArgumentSet::new_with_labels) + 3..80 seeded operations (1 history in 2000: 150..2500 operations over 2..24 labels, so that ids, tombstones and per-argument lists grow far beyond the live size) {new_argument, remove_argument, new_attack, remove_attack} over a universe of 1..8 labels (usize or String), swarm weights and invalid-operand rate redrawn per run; after every operation all public observables are compared with the RefStore set model. Non-trivial = at least 2 state-changing operations; distinct = distinct serialised case".into()
+        "case = initial label list (ArgumentSet::new_with_labels; a quarter with repeated labels; a quarter of the runs with unusual labels: empty, case variants, prefixes of one another, 5000-fold repetitions, usize 0 / 2^k / usize::MAX) + 3..80 seeded operations (1 history in 2000: 150..2500 operations over 2..24 labels, so that ids, tombstones and per-argument lists grow far beyond the live size) {new_argument, remove_argument, new_attack, remove_attack} over a universe of 1..8 labels (usize or String), swarm weights and invalid-operand rate redrawn per run; after every operation all public observables are compared with the RefStore set model. Non-trivial = at least 2 state-changing operations; distinct = distinct serialised case".into()
     }
     fn assumptions(&self) -> Vec<String> {
         vec![
